@@ -40,7 +40,12 @@ Reset ==
   /\ content' = Fresh /\ pend' = <<>> /\ l' = l + 1
 
 Skip ==
-  /\ l <= Len(Trace) /\ Ev.ev \notin {"Reset", "LCall", "LRet", "LHang"}    \* LHang (an operation never returned) matches no action: the search stops there
+  /\ l <= Len(Trace) /\ Ev.ev \notin {"Reset", "LCall", "LRet", "LHang", "IdStress"}    \* LHang (an operation never returned) matches no action: the search stops there
+  /\ l' = l + 1 /\ UNCHANGED <<content, pend>>
+
+(* the stress of the request-id draw: accepted only if all ids drawn concurrently were distinct (replies are routed by id) *)
+IdStress ==
+  /\ l <= Len(Trace) /\ Ev.ev = "IdStress" /\ Ev.distinct = Ev.draws
   /\ l' = l + 1 /\ UNCHANGED <<content, pend>>
 
 Call ==
@@ -62,7 +67,7 @@ Ret ==
   /\ pend' = Del(pend, Ev.g)
   /\ l' = l + 1 /\ UNCHANGED content
 
-Next == Reset \/ Skip \/ Call \/ Ret \/ \E g \in DOMAIN pend : Lin(g)
+Next == Reset \/ Skip \/ IdStress \/ Call \/ Ret \/ \E g \in DOMAIN pend : Lin(g)
 
 Spec == Init /\ [][Next]_vars
 
